@@ -286,6 +286,17 @@ func knownClasses(c Case, ref *Ref) []knownClass {
 		for _, i := range g {
 			skip[i] = true
 		}
+		reqBad := false
+		for _, i := range g {
+			if ref.Want[i].ReqIllTyped {
+				reqBad = true
+			}
+		}
+		if reqBad {
+			// resolveManyEntities returns from its result loop at the first required field its
+			// scalar rejects: the representations after it in the batch are not answered
+			out = append(out, knownClass{"multi-resolver-ill-typed-required-field-aborts-rest-of-batch", skip})
+		}
 		if len(sels) > 1 {
 			// D14: resolveManyEntities takes the key / resolver of the whole type group from reps[0]
 			if unres {
